@@ -18,6 +18,9 @@ Coverage of the property text, clause by clause (stream = `kind` of the generate
                                                    through the reference parser against what the C++ reader built
   refusals                                         refuse: SPIN (used / unused), soft constraint, non-string / empty / 256+ /
                                                    bad-first-character / out-of-alphabet labels on variables and constraints, controls
+  INTEGER variables with non-integral bounds (round 5)   gen_vars (25% of the INTEGER variables)
+  near-keyword labels (round 5)                          reads: NEAR_KEYWORDS; outside the pinned keyword set a label must come back
+  whitespace / control characters in labels (round 5)    refuse: rand_bad_label WS_CTRL (trailing newline weighted)
 Not reached: LP files not written by lp.dumps (Maximize, ranges, `free`, one-sided bound lines, comments, sections in another
 order) - the property is about the writer's output; discrete-constraint markers (lost by the format, not refused).
 """
@@ -137,7 +140,15 @@ def gen_vars(rng, tier, used, n):
         l = rand_label(rng, tier, used)
         vt = rng.choice(['BINARY', 'BINARY', 'INTEGER', 'INTEGER', 'REAL'])
         lb = ub = None
-        if vt == 'INTEGER' and rng.random() < 0.75:
+        if vt == 'INTEGER' and rng.random() < 0.25:
+            # non-integral bounds (dimod accepts them): the file carries them, the reader must hand them back unchanged
+            lb = rng.choice(["1/2", "-5/2", "-1/2", "0", "3/4", "-7/4", "5/2"])
+            ub = str(Fraction(lb) + rng.choice([1, Fraction(3, 2), 2, 3, Fraction(5, 2), Fraction(13, 4)]))   # at least one integer inside
+            if rng.random() < 0.15 and Fraction(ub) >= 0:
+                lb = None
+            elif rng.random() < 0.15:
+                ub = None
+        elif vt == 'INTEGER' and rng.random() < 0.75:
             lb = rng.choice([0, 0, -3, 1, -2 ** 40, 5]); ub = lb + rng.choice([0, 1, 2, 7, 2 ** 30])
             if rng.random() < 0.2:
                 lb = None if ub >= 0 else lb
@@ -162,6 +173,9 @@ def gen_case(rng, tier):
     return c
 
 
+NEAR_KEYWORDS = sorted({w + suf for w in KEYWORDS | {"subject", "to", "such", "that", "obj"} for suf in (".", "..", ",", "?", "_", "'", ";", "s", "s.")}
+                       | {w.replace(".", "") + "." for w in KEYWORDS} | {w[:-1] + "." + w[-1] for w in KEYWORDS if len(w) > 1}
+                       | {w[0] + "." + w[1:] for w in KEYWORDS if len(w) > 1})
 READS_WORDS = sorted(KEYWORDS | {"subject", "to", "such", "that", "free", "inf", "infinity", "nan", "info", "nancy", "infeasible",
                                  "nano", "in", "na", "integer1", "mins", "stx", "s.t", "bound.", "free1", "sost"})
 
@@ -170,7 +184,7 @@ def gen_reads(rng, tier):
     """one label, possibly inside the reported defect regions, as a variable or a constraint label"""
     r = rng.random()
     if r < 0.45:
-        w = rng.choice(READS_WORDS)
+        w = rng.choice(READS_WORDS) if rng.random() < 0.5 else rng.choice(NEAR_KEYWORDS)
         s = ''.join(ch.upper() if rng.random() < 0.3 else ch for ch in w)
         if rng.random() < 0.25:
             s += rng.choice(VALID)
@@ -297,7 +311,23 @@ def gen_huge(rng, tier, used):
     return {"kind": "trip", "huge": True, "extreme": extreme, "vars": vars_, "obj": obj, "cons": cons, "probes": []}
 
 
+WS_CTRL = ['\n', '\r', '\t', ' ', '\x0b', '\x0c', '\x00', '\x1f', '\x7f', '\x85', '\u00a0', '\u2028', '\u2029', '\r\n', '\n\n']
+
+
 def rand_bad_label(rng):
+    if rng.random() < 0.3:
+        # whitespace and control characters: trailing (a regex `$` lets a final newline through), leading, embedded
+        where = rng.choice(['end', 'end', 'end', 'start', 'middle', 'only'])
+        w = rng.choice(WS_CTRL + (['\n'] * 4 if where == 'end' else []))
+        body = ''.join(rng.choice(FIRST_OK) for _ in range(rng.randint(1, 6)))
+        if where == 'end':
+            return body + w
+        if where == 'start':
+            return w + body
+        if where == 'only':
+            return w
+        k = rng.randint(1, len(body))
+        return body[:k] + w + body[k:]
     r = rng.random()
     if r < 0.25:
         return rng.choice([0, 7, {"t": ["a", 1]}, 2.5, -1])
@@ -613,7 +643,12 @@ def run_reads(c):
               and all(new.vartype(x) is cqm.vartype(x) for x in cqm.variables))
     except Exception:
         ok = False
-    return {"coq": f"(KReads {cbool(c['as_constraint'])} {ctext(s)} {cbool(ok)})", "py_fail": None, "features": feats,
+    # independent of the keyword tables generated from reader.cpp: outside the reported defect regions (worker-side pinned
+    # copy of the reader's keywords: KEYWORDS, TWO_WORD) every accepted label has to come back
+    py_fail = None
+    if not ok and label_zone(s) is None:
+        py_fail = f"label {s!r} is outside the reported defect regions (not a pinned keyword, no inf/nan prefix, no leading ';') but loads(dumps(cqm)) did not give the model back"
+    return {"coq": f"(KReads {cbool(c['as_constraint'])} {ctext(s)} {cbool(ok)})", "py_fail": py_fail, "features": feats,
             "nontrivial": True, "observed": None if ok else "did not come back"}
 
 
